@@ -31,8 +31,10 @@ macro_rules! check {
         kani::assert($cond, $label);
         #[cfg(not(kani))]
         {
+            // native replay: record every violated label and carry on, so one
+            // witness can confirm several failing checks
             if !($cond) {
-                panic!("{}", $label);
+                $crate::src::note_failure($label);
             }
         }
     };
@@ -53,9 +55,14 @@ macro_rules! known {
 
 /// Declares harnesses: a generic body, a `#[kani::proof]` wrapper and an
 /// entry in the module's `LIST` used by the native replayer.
+///
+/// `[unwind n]` is mandatory.  An optional `[stub_deg_mod]` replaces rsass's
+/// private `deg_mod` by [`stubs::deg_mod_exact`] for the Kani run only (Kani
+/// models float `%` nondeterministically); E2 proves the real `deg_mod`
+/// bit-equal to that stub on its exact range (see DESIGN 2.3).
 #[macro_export]
 macro_rules! harnesses {
-    ($( $(#[doc = $doc:literal])* fn $name:ident [unwind $n:literal] ($s:ident) $body:block )*) => {
+    ($( $(#[doc = $doc:literal])* fn $name:ident [unwind $n:literal] $([$stub:ident])? ($s:ident) $body:block )*) => {
         $(
             $(#[doc = $doc])*
             pub fn $name<S: $crate::Src>($s: &mut S) $body
@@ -63,11 +70,7 @@ macro_rules! harnesses {
         #[cfg(kani)]
         mod kani_proofs {
             $(
-                #[kani::proof]
-                #[kani::unwind($n)]
-                fn $name() {
-                    super::$name(&mut $crate::src::KaniSrc);
-                }
+                $crate::kani_wrapper!($name, $n $(, $stub)?);
             )*
         }
         pub const LIST: &[(&str, fn(&mut $crate::ByteSrc))] = &[
@@ -76,11 +79,45 @@ macro_rules! harnesses {
     };
 }
 
+#[macro_export]
+macro_rules! kani_wrapper {
+    ($name:ident, $n:literal) => {
+        #[kani::proof]
+        #[kani::unwind($n)]
+        fn $name() {
+            super::$name(&mut $crate::src::KaniSrc);
+        }
+    };
+    ($name:ident, $n:literal, stub_deg_mod) => {
+        #[kani::proof]
+        #[kani::unwind($n)]
+        #[kani::stub(rsass::value::colors::hsla::deg_mod, $crate::stubs::deg_mod_exact)]
+        fn $name() {
+            super::$name(&mut $crate::src::KaniSrc);
+        }
+    };
+}
+
+pub mod stubs;
 pub mod oracle;
+pub mod c11;
 pub mod c12;
+pub mod c13;
+pub mod c01;
+pub mod c14;
+pub mod c17;
+pub mod c31;
+pub mod c32;
 
 pub fn registry() -> Vec<(&'static str, fn(&mut ByteSrc))> {
     let mut v = Vec::new();
+    v.extend_from_slice(c11::LIST);
     v.extend_from_slice(c12::LIST);
+    v.extend_from_slice(c13::LIST);
+    v.extend_from_slice(c17::LIST);
+    v.extend_from_slice(c01::LIST);
+    v.extend_from_slice(c14::LIST);
+    v.extend_from_slice(c31::LIST);
+    v.extend_from_slice(c32::LIST);
     v
 }
